@@ -1,0 +1,85 @@
+//go:build verif
+
+package cursor
+
+import (
+	"fmt"
+	"strings"
+	"time"
+
+	"github.com/logrange/logrange/pkg/container"
+)
+
+// For the verification harness (/verif, property C15) only: variants of Dump/Age that never walk a ring without a bound.
+// (CLElement.Len() does not return on a ring whose next chain does not come back to its start; a change that corrupts the
+// ring must end in a reported failure, not in a hung harness.)
+
+// verifRing returns the cells of the ring headed by h in forward (next) order, or ok=false when more than limit cells
+// were met before the walk along prev came back to h.
+func verifRing(h *container.CLElement, limit int) (res []*container.CLElement, ok bool) {
+	if h == nil {
+		return nil, true
+	}
+	// Prev() walks backward: collect, then reverse; the head stays first
+	back := []*container.CLElement{}
+	for e := h.Prev(); e != h; e = e.Prev() {
+		back = append(back, e)
+		if len(back) > limit {
+			return nil, false
+		}
+	}
+	res = append(res, h)
+	for i := len(back) - 1; i >= 0; i-- {
+		res = append(res, back[i])
+	}
+	return res, true
+}
+
+func (v ProviderVerif) limit() int { return len(v.p.curs) + v.p.freePoolSz + 5000 }
+
+// AgeBounded is Age with a bounded walk; false = the busy ring is broken.
+func (v ProviderVerif) AgeBounded(d time.Duration) bool {
+	v.p.lock.Lock()
+	defer v.p.lock.Unlock()
+	els, ok := verifRing(v.p.busy, v.limit())
+	if !ok {
+		return false
+	}
+	for _, e := range els {
+		ch := e.Val.(*curHldr)
+		ch.expTime = ch.expTime.Add(-d)
+	}
+	return true
+}
+
+// DumpBounded is Dump with bounded walks: a ring that does not close is printed as BROKEN.
+func (v ProviderVerif) DumpBounded(name func(Cursor) string) string {
+	if name == nil {
+		name = JNameVerif
+	}
+	v.p.lock.Lock()
+	defer v.p.lock.Unlock()
+	els, ok := verifRing(v.p.busy, v.limit())
+	fr, ok2 := verifRing(v.p.free, v.limit())
+	if !ok || !ok2 {
+		return fmt.Sprintf("ring=BROKEN (busy closes=%v, free closes=%v) map=%d free=%d", ok, ok2, len(v.p.curs), v.p.freePoolSz)
+	}
+	items := []string{}
+	for _, e := range els {
+		ch, isH := e.Val.(*curHldr)
+		if !isH {
+			items = append(items, "?")
+			continue
+		}
+		jn := "nil"
+		if ch.cur != nil {
+			jn = name(ch.cur)
+		}
+		b := 0
+		if ch.busy {
+			b = 1
+		}
+		items = append(items, fmt.Sprintf("%s:%d", jn, b))
+	}
+	return fmt.Sprintf("ring=[%s] map=%d free=%d freelen=%d", strings.Join(items, ","), len(v.p.curs), v.p.freePoolSz, len(fr))
+}
